@@ -527,8 +527,6 @@ func (w *worker) httpDo(op string, body map[string]any) (int, []byte) {
 	return rec.Code, rec.Body.Bytes()
 }
 
-func durStr(ns int64) string { return time.Duration(ns).String() }
-
 func (w *worker) dequeue() {
 	r := w.r
 	ttlPh := r.cfg.TTLPhases[w.rng.Intn(len(r.cfg.TTLPhases))]
